@@ -189,6 +189,15 @@ class IndexedData(BaseCartesianData, HubListener):
         return self._original_data.compute_statistic(statistic, cid, **kwargs)
 
     def compute_histogram(self, *args, **kwargs):
+        args = list(args)
+        if len(args) > 0:
+            args[0] = [self._translate_cid(cid) for cid in args[0]]
+        elif 'cids' in kwargs:
+            kwargs['cids'] = [self._translate_cid(cid) for cid in kwargs['cids']]
+        if len(args) > 1:
+            args[1] = self._translate_cid(args[1])
+        elif kwargs.get('weights') is not None:
+            kwargs['weights'] = self._translate_cid(kwargs['weights'])
         if kwargs.get('subset_state') is None:
             kwargs['subset_state'] = self._indices_subset_state
         else:
